@@ -244,6 +244,7 @@ class Scheduler(object):
             # the peer stops reading: this sendall blocks (in the kernel)
             # for a while with half of the data out
             self.stats['stalled_writes'] += 1
+            self.w.fired('sendall_stalled_midway')
             me.state = 'sleep'
             me.deadline = self.w.now + int(st['us'])
             self.switch_away(me)
